@@ -763,9 +763,39 @@ def _round28(fr):
     return sign * Fraction(n) / scale
 
 
+C08_TIES = ['10000000000000000000000000001 / 2', '10000000000000000000000000003 / 2', '5 * 0.10000000000000000000000000001',
+            '1 / 3', '2 / 3', '0.5 + 10000000000000000000000000000', '1.5 * 10000000000000000000000000001', '-(10000000000000000000000000001 / 2)',
+            '20000000000000000000000000001 / 2 - 1', '(1 / 7) * 7']
+
+
 def mon_c08(im, p):
     """exact-rational oracle for + - * / unary minus and comparisons over decimal literals"""
     from fractions import Fraction
+    if 'after' in p:
+        # evaluations first - of any outcome: calls of every table entry with missing, surplus and ill-typed arguments - and the
+        # oracle afterwards: whatever an evaluation leaves behind at thread level (the decimal context: precision, ROUNDING
+        # MODE, traps), the arithmetic of later evaluations is still exact / half-even at 28 digits
+        fails = []
+        try:
+            for pre in p['after']:
+                try:
+                    im.p.eval(pre, {}, max_ops_evaluated=2000)
+                except Exception:
+                    pass
+                for src in C08_TIES[:3]:
+                    r = mon_c08(im, {'src': src})
+                    if r['fail']:
+                        f = r['fail'][0]
+                        fails.append({'signature': 'decimal-inexact-after:' + pre.split('(')[0], 'what': f'after evaluating {pre!r}: ' + f['what'],
+                                      'input': {'after': [pre], 'src': src}})
+                        break
+                if fails:
+                    break
+        finally:
+            # leave the thread's context as a fresh interpreter has it: the next payload must not inherit anything
+            decimal.setcontext(decimal.Context(prec=28, rounding=decimal.ROUND_HALF_EVEN, Emin=-999999, Emax=999999, capitals=1, clamp=0,
+                                               flags=[], traps=[decimal.InvalidOperation, decimal.DivisionByZero, decimal.Overflow]))
+        return {'fail': fails, 'nontrivial': True}
     ns = im.ns
     A = ns.ast_ops
     src = p['src']
@@ -979,9 +1009,16 @@ def mon_c10_reenter(im, p):
 
         def sub(src, _inner=inner):
             return im.p.eval(src, _inner)
+        def subq(src, _inner=inner):
+            # the same, answering 'ERR' when the inner program fails with a language-level error (an undefined name, say)
+            try:
+                return im.p.eval(src, _inner)
+            except im.ns.exc.ParserError:
+                return 'ERR'
         names = dict(evalimpl.Host({}).fns)
         names.update({k: D(v) for k, v in sc.get('names', {}).items()})
         names['sub'] = sub
+        names['subq'] = subq
         canon = lambda v: '[' + ', '.join(canon(x) for x in v) + ']' if isinstance(v, list) else str(v)
         try:
             out = canon(im.p.eval(sc['src'], names, max_ops_evaluated=1000))
@@ -1002,6 +1039,36 @@ def mon_c10_reenter(im, p):
                 why = why or f'inner mapping has {k!r} = {inner.get(k)!r}, expected {v}'
         if why:
             fails.append({'signature': 'reentrant-eval-scopes', 'what': f'{sc["src"]!r} with sub = eval on the same parser with another mapping: {why}', 'input': sc})
+    return {'fail': fails, 'nontrivial': True}
+
+
+def mon_c10_hostcall(im, p):
+    """a lambda that an evaluation stored in the host's names mapping, CALLED BY THE HOST after that evaluation has returned
+    (and after the host changed its mapping): its free names still resolve innermost-first - its parameters, then the host's
+    mapping as it is at the time of the call, then the builtins"""
+    fails = []
+    canon = lambda v: '[' + ', '.join(canon(x) for x in v) + ']' if isinstance(v, list) else str(v)
+    for sc in p['scenarios']:
+        parser = sqimpl.Impl(im.ns).p
+        host = {}
+        for j, st in enumerate(sc):
+            try:
+                if st[0] == 'eval':
+                    parser.eval(st[1], host, max_ops_evaluated=1000)
+                    continue
+                if st[0] == 'set':
+                    host[st[1]] = (lambda *a, _v=st[2][1]: _v) if isinstance(st[2], list) else D(st[2])
+                    continue
+                if st[0] == 'other':           # an evaluation for ANOTHER mapping in between
+                    parser.eval(st[1], {k: D(v) for k, v in st[2].items()}, max_ops_evaluated=1000)
+                    continue
+                out = canon(host[st[1]](*[D(a) if isinstance(a, int) else a for a in st[2]]))
+            except Exception as e:
+                out = 'raised ' + type(e).__name__
+            if st[0] == 'call' and out != st[3]:
+                fails.append({'signature': 'host-called-lambda-scopes', 'what': f'step {j} of {sc!r}: the host calls {st[1]}{tuple(st[2])!r} and gets {out}, '
+                              f'expected {st[3]}', 'input': {'scenario': sc}})
+                break
     return {'fail': fails, 'nontrivial': True}
 
 
@@ -1100,7 +1167,10 @@ def _do_call(im, host, call, maps):
         if kind == 'names':
             lim = None if call[2] == 'all' else int(call[2])
             got = []
-            for n in im.p.list_names(call[1]):
+            it = im.p.list_names(call[1])
+            # an abandoned generator stays REFERENCED by its caller (not closed, not collected) for the rest of the history
+            im.__dict__.setdefault('_kept_iterators', []).append(it)
+            for n in it:
                 if lim is not None and len(got) >= lim:
                     break
                 got.append(n)
@@ -1130,13 +1200,19 @@ def mon_c11(im0, p):
     """each call of a history is repeated on a freshly constructed SqParser with deep-copied equal arguments"""
     ns = im0.ns
     real_random = getattr(ns.functions, 'random', None)
-    host = evalimpl.Host({})
-    host.classify = im0.classify
-    im = sqimpl.Impl(ns)
-    rd = evalimpl.Reader(ns, host)
-    maps = list(rd.val(evalimpl.sread(p['heap'])[0]))
     fails = []
+    variants = ['plain'] + (['cache'] if p.get('also_cached') else [])
     try:
+      for variant in variants:
+        host = evalimpl.Host({})
+        host.classify = im0.classify
+        # `cache`: the same history on a parser constructed with parse_cache={} (a retaining cache): every call still
+        # answers as a freshly constructed cache-less parser does
+        im = sqimpl.Impl(ns) if variant == 'plain' else _caching(ns)
+        rd = evalimpl.Reader(ns, host)
+        maps = list(rd.val(evalimpl.sread(p['heap'])[0]))
+        if fails:
+            break
         for i, call in enumerate(p['calls']):
             call = tuple(call)
             if call[0] == 'hostpush':
@@ -1151,8 +1227,8 @@ def mon_c11(im0, p):
             exp = _do_call(fresh, host, call, maps_copy)
             if got != exp:
                 sig = 'D9:cross-eval-closure' if closure_in_names else 'history-dependence:' + call[0]
-                fails.append({'signature': sig, 'what': f'call #{i} {call[:2]!r}: on the used parser {got[:160]!r}, on a fresh parser {exp[:160]!r}',
-                              'input': p})
+                fails.append({'signature': sig, 'what': f'call #{i} {call[:2]!r}: on the used {"caching " if variant == "cache" else ""}parser {got[:160]!r}, '
+                              f'on a fresh parser {exp[:160]!r}', 'input': p})
                 break
     finally:
         evalimpl.set_random(ns, real_random)
@@ -1489,6 +1565,40 @@ def mon_c16(im, p):
     ns = im.ns
     PE = ns.exc.ParserError
     fails = []
+    if 'cached_calls' in p:
+        # the same text evaluated several times on a parser with a retaining parse cache (and the same parsed tree re-used
+        # through ast_names), with names mappings that define a function the first time and NOT afterwards: calling an
+        # undefined function is a ParserError every time
+        imc = sqimpl.Impl(ns, parse_cache={})
+        src, defs = p['cached_calls']
+        for variant in ('cache', 'ast_names'):
+            for j, names in enumerate(defs):
+                nm = {k: (lambda *a, _v=v: _v) for k, v in names.items()}
+                try:
+                    if variant == 'cache':
+                        r = imc.p.eval(src, nm, max_ops_evaluated=1000)
+                    else:
+                        if j == 0:
+                            tree = sqimpl.Impl(ns).p.parse('z => ' + src)
+                        r = im.p.eval('zz_f(0)', nm, ast_names={'zz_f': tree}, max_ops_evaluated=1000)
+                    outcome = 'value'
+                except PE:
+                    outcome = 'ParserError'
+                except Exception as e:
+                    outcome = type(e).__name__
+                fresh_names = {k: (lambda *a, _v=v: _v) for k, v in names.items()}
+                try:
+                    sqimpl.Impl(ns).p.eval(src, fresh_names, max_ops_evaluated=1000)
+                    exp = 'value'
+                except PE:
+                    exp = 'ParserError'
+                except Exception as e:
+                    exp = type(e).__name__
+                if outcome != exp:
+                    fails.append({'signature': 'stale-call-target', 'what': f'{src!r} evaluated ({variant}) for the {j + 1}th time with names {sorted(names)}: '
+                                  f'{outcome}; a fresh parser: {exp}', 'input': p})
+                    return {'fail': fails, 'nontrivial': True}
+        return {'fail': fails, 'nontrivial': True}
     if 'seq' in p:
         # calls WITHOUT a names mapping: what one program assigns must be undefined for the next one
         F = ns.functions.FUNCTIONS
@@ -1714,7 +1824,11 @@ def mon_c19(im, p):
     _r.seed(p['seed'])
     fails = []
     a, b = p['a'], p['b']
-    for A, B in ((a, b), (D(a), D(b)), (a, D(b))):
+    # integer-valued bounds in every numeric spelling a host or a program can supply: ints, Decimals, Decimals that carry
+    # fraction digits (1.0, 3.00), Decimals in exponent form (1E+1 style)
+    fz = lambda x, k: D(x).quantize(D(1).scaleb(-k)) if abs(x) < 10 ** 20 else D(x)
+    ez = lambda x: D(x).normalize() if x % 10 == 0 and x != 0 else D(x)
+    for A, B in ((a, b), (D(a), D(b)), (a, D(b)), (fz(a, 1), fz(b, 2)), (fz(a, 3), b), (ez(a), ez(b))):
         for _ in range(p['draws']):
             try:
                 n = im.p.eval('rand(a, b)', {'a': A, 'b': B})
@@ -1819,6 +1933,27 @@ def mon_c19(im, p):
 # ------------------------------------------------------------------ C20
 def mon_c20(im0, p):
     ns = im0.ns
+    if 'cached_seq' in p:
+        # texts that differ only in blank lines / blanks around the same erroneous statements, one after the other on a
+        # parser with a retaining parse cache: each message is the one a freshly constructed cache-less parser gives for
+        # THAT text (its own token, its own physical line)
+        fails = []
+        imc = sqimpl.Impl(ns, parse_cache={})
+        for j, text in enumerate(p['cached_seq']):
+            outs = []
+            for q in (imc, sqimpl.Impl(ns)):
+                try:
+                    q.p.parse(text)
+                    outs.append('ok')
+                except ns.exc.ParserError as e:
+                    outs.append('ParserError: ' + str(e))
+                except Exception as e:
+                    outs.append(type(e).__name__)
+            if outs[0] != outs[1]:
+                fails.append({'signature': 'cached-parser-message', 'what': f'text #{j} {text[:80]!r} after {p["cached_seq"][:j]!r} on a caching parser: '
+                              f'{outs[0][:160]!r}; a fresh parser says {outs[1][:160]!r}', 'input': p})
+                break
+        return {'fail': fails, 'nontrivial': True}
     im = sqimpl.Impl(ns) if p.get('fresh') else im0
     src = p['src']
     fails = []
